@@ -92,7 +92,7 @@ fn main() {
         let plan: &'static Plan = cases::leak(Plan::new(thorough));
         ctx.rule(format!(
             "{}corpus documents ({}) x entry points (eager / lazy readers, index query) x [every truncation | every byte offset x {} substitution values | every located length/count/offset field x <= 12 boundary values], at the file layer and — for BGZF / gzip documents — at the uncompressed layer with re-sealed checksums; CRAM codec decoders x all byte strings of length <= {} and every 1-byte substitution / truncation of {} valid streams; distinct = distinct (format, entry, outcome message class, item count) tuples",
-            if thorough { "thorough: all 255 substitution values on the documents of the quick corpus, the six-value alphabet on the additional thorough documents and on the fqzcomp streams | " } else { "" },
+            if thorough { "thorough: all 255 substitution values on the documents of the quick corpus, the six-value alphabet on the additional thorough documents and on the fqzcomp and name-tokenizer streams | " } else { "" },
             plan.docs.iter().filter(|d| !d.big).count(),
             plan.n_sub,
             plan.max_len,
